@@ -18,7 +18,7 @@ META = {
     "required": ["monitor:type-resolve", "monitor:hugr-resolve", "monitor:wire-invariance", "monitor:model-invariance",
                  "monitor:idempotence", "monitor:model-compared", "monitor:hugr-model-compared", "feature:partial-registry", "feature:empty-registry",
                  "feature:missing-def", "feature:opaque-inside-opaque-args", "feature:resolved-op",
-                 "feature:unresolved-op", "feature:polyfunc", "feature:perturbed-runtime-reqs"],
+                 "feature:unresolved-op", "feature:polyfunc", "feature:perturbed-runtime-reqs", "feature:computed-signature-op"],
     "reach": ["hugr.tys:Opaque.resolve", "hugr.ops:Custom.resolve", "hugr.hugr.base:Hugr.resolve_extensions",
               "hugr.tys:Sum.resolve", "hugr.tys:FunctionType.resolve", "hugr.ext:ExtensionRegistry.get_extension"],
     "assumptions": [
@@ -291,6 +291,23 @@ def check_hugr_case(ctx, case, stratum="hugr"):
                 ctx.feat("feature:perturbed-runtime-reqs")
         s = json.dumps(doc)
     h = Hugr.load_json(s)
+    if case.get("plant_binary"):
+        # opaque operations whose DEFINITION has a computed signature (no type scheme): their type arguments are
+        # resolved like everybody else's
+        from hugr import tys
+
+        ctx.feat("feature:computed-signature-op")
+        C = tys.TypeBound.Copyable
+        i5 = tys.Opaque(id="int", bound=C, args=[tys.BoundedNatArg(5)], extension="arithmetic.int.types")
+        f64 = tys.Opaque(id="float64", bound=C, args=[], extension="arithmetic.float.types")
+        arr = tys.Opaque(id="array", bound=C, args=[tys.BoundedNatArg(2), tys.TypeTypeArg(i5)],
+                         extension="collections.array")
+        box = tys.Opaque(id="Box", bound=C, args=[tys.TypeTypeArg(f64)], extension="verif.test")  # (from-params bound of a copyable argument)
+        h.add_node(ops.Custom("new_array", tys.FunctionType([i5, i5], [arr]), "", "collections.array",
+                              [tys.BoundedNatArg(2), tys.TypeTypeArg(i5)]), h.root)
+        h.add_node(ops.Custom("BinOp", tys.FunctionType([box], [f64]), "", "verif.test",
+                              [tys.TypeTypeArg(box), tys.SequenceArg([tys.TypeTypeArg(arr), tys.StringArg("s")])]),
+                   h.root)
     exts = all_exts()
     universe = {n: {"types": sorted(e.types), "ops": sorted(e.operations)} for n, e in exts.items()}
     reg = make_registry(spec, exts)
@@ -413,7 +430,7 @@ def run(ctx):
         universe = {e.name: {"types": sorted(e.types), "ops": sorted(e.operations)}
                     for e in [*hx.std_extensions(), hx.test_ext()]}
         case = {"prog": gen_program(r, kind="module", budget=25), "reg": gen_registry_spec(r, universe),
-                "reqs_seed": f"{ctx.seed}/{i}" if i % 2 else None}
+                "reqs_seed": f"{ctx.seed}/{i}" if i % 2 else None, "plant_binary": i % 3 == 0}
         nt = ctx.guard("hugr", case, check_hugr_case, ctx, case)
         ctx.case("hugr", case, bool(nt))
 
